@@ -341,9 +341,12 @@ func exec(in *insts, st Step) result {
 				err = in.ojw.Write(&b, tree)
 				out = b.String()
 			case "marshalWith":
+				// the bytes Marshal hands back are the caller's: later calls on the same Writer must
+				// not write into them
 				var b []byte
 				b, err = oj.Marshal(tree, in.ojw)
 				out = string(b)
+				return result{text: sortedText(out, st.Opt.Sort && st.Inst == "oj.Writer"), err: errKind(err), values: []any{b}}
 			default:
 				out = in.ojw.JSON(tree)
 			}
